@@ -5,9 +5,9 @@
    which the variable is awake; an input carries the relative step number, the variable's value computed from the atoms, the
    ordinary and the bypassing bias forces, the Gaussian number the engine would return, and whether a simulation is running.
    Dt c = dt * timeStepFactor.  The specification objects (doc_step, doc_run, shadow, inside, ...) are defined in ExtLagProofs.v. *)
-From Coq Require Import ZArith List Bool Reals Lra Lia.
+From Coq Require Import ZArith List Bool Reals Lra Lia String.
 From Coquelicot Require Import Coquelicot.
-From CV Require Import Base.Num Base.RNum C18.ValueModel C17.ExtLagModel C17.ExtLagProofs.
+From CV Require Import Base.Num Base.RNum C18.ValueModel C17.ExtLagModel C17.ExtLagProofs Gen.GenBypass C17.BypassTable.
 Import ListNotations.
 Local Open Scope R_scope.
 
@@ -393,6 +393,76 @@ Theorem C17_total_force_same_step : forall (c : @config R) (p : @params R) (s : 
 Proof. exact ft_same_step. Qed.
 Print Assumptions C17_total_force_same_step.
 
+(* ---- round 3 ---------------------------------------------------------------------------------------------------- *)
+(* the consistency check of a restarted job (colvar::calc_value, "differs greatly from the value last read from the state file") never
+   refuses a legitimate resume: state saved after an awake step and the step executed again with the same coordinates ... *)
+Theorem C17_legit_resume_accepted : forall (c : @config R) (p : @params R) (s : @state R) (i : @input R),
+  i_running i = true ->
+  let s1 := step Rops c p s i in
+  saved_value s1 = i_x i /\
+  restart_refused Rops c (saved_value s1) true (shift_input (i_step i) i) = false.
+Proof. exact legit_resume_accepted_awake. Qed.
+Print Assumptions C17_legit_resume_accepted.
+
+(* ... or saved between two slow steps: the first evaluation of the new job is at a later step, where the check no longer applies
+   [fix-C17-3: it used to compare values one slow step apart and abort valid restarts] *)
+Theorem C17_legit_resume_accepted_between_slow_steps : forall (c : @config R) x_saved (i : @input R),
+  (0 < i_step i)%Z -> restart_refused Rops c x_saved true i = false.
+Proof. exact legit_resume_accepted_asleep. Qed.
+Print Assumptions C17_legit_resume_accepted_between_slow_steps.
+
+(* while a state that does not belong to the coordinates is refused at the first step *)
+Theorem C17_wrong_state_refused : forall (c : @config R) x_saved (i : @input R),
+  i_running i = true -> i_step i = 0%Z -> 1 / 4 < cv_dist2 Rops c (i_x i) x_saved / (c_width c * c_width c) ->
+  restart_refused Rops c x_saved true i = true.
+Proof. exact wrong_state_refused. Qed.
+Print Assumptions C17_wrong_state_refused.
+
+(* a state loaded into an object that has already run (same session) behaves as in a fresh object [fix-C17-3: the remembered step number
+   made the next step raise the factor error, or revert to the backup of the old trajectory] *)
+Theorem C17_load_in_session : forall (c : @config R) (p : @params R) x v (s : @state R) (i : @input R),
+  i_running i = true -> (0 <= i_step i)%Z ->
+  step Rops c p (load_state x v s) i = step Rops c p (restart_state Rops x v) i.
+Proof. exact load_in_session. Qed.
+Print Assumptions C17_load_in_session.
+
+(* FULL STATEMENT (false of the code): C17_reflect_inside without the premise wrap_ok.  A periodic variable with only ONE reflecting boundary
+   (or boundaries outside the wrapping window): the coordinate leaves through the other side of the window, is wrapped and arrives beyond the
+   reflecting boundary, without error (replayed on the C++ by the check: known finding) *)
+Theorem C17_reflect_periodic_one_sided_refuted :
+  exists (c : @config R) (p : @params R) (x v : R) (i : @input R),
+    c_period c = Some (4, 0) /\ c_refl_lo c = true /\ c_refl_up c = false /\ c_lower c <= c_upper c /\ inside c x /\
+    i_running i = true /\
+    let s' := step Rops c p (restart_state Rops x v) i in
+    s_err s' = false /\ s_x_ext s' = Some (- (3 / 2)) /\ ~ inside c (- (3 / 2)).
+Proof. exact reflect_periodic_one_sided_escape. Qed.
+Print Assumptions C17_reflect_periodic_one_sided_refuted.
+
+(* which biases bypass the coordinate: the table regenerated from the binary on every run is well formed (a kind that bypasses by default
+   can bypass; names unique; not empty) ... *)
+Theorem C17_bypass_table_wf : table_wf bypass_table = true.
+Proof. exact bypass_table_wf. Qed.
+Print Assumptions C17_bypass_table_wf.
+
+(* ... a kind of the table bypasses only if the feature is available for it, whatever the user writes ... *)
+Theorem C17_bypass_needs_available :
+  forall e, In e bypass_table -> forall u, effective_bypass e u = Some true -> bt_avail e = true.
+Proof. exact table_effective_needs_available. Qed.
+Print Assumptions C17_bypass_needs_available.
+
+(* ... and the force F of a bias goes where its flag says: bypassing -> to the atoms, and the bias sees the actual value;
+   otherwise -> to the extended coordinate (divided by the factor), and the bias sees the coordinate *)
+Theorem C17_bypass_routing : forall (c : @config R) (p : @params R) (s : @state R) (i : @input R) (b : bool) F,
+  i_running i = true -> tsf_error c s i = false ->
+  i_fb i = fst (route_bias Rops b F) -> i_fba i = snd (route_bias Rops b F) ->
+  let xe := fst (props_xv Rops c s i) in
+  let s' := step Rops c p s i in
+  s_f s' = IZR (c_tsf c) * (- f_spring c p xe (i_x i)) + (if b then F else 0) /\
+  s_fr s' = (if b then 0 else F / IZR (c_tsf c)) /\
+  bias_sees b (s_x_rep s') (i_x i) = (if b then i_x i else xe).
+Proof. exact routing_by_bypass. Qed.
+Print Assumptions C17_bypass_routing.
+
 (* ---- the premises are satisfiable ------------------------------------------------------------------------------- *)
 Definition ex_c : @config R := mkConfig 1 1 1 16 0 (1 / 2) 2%Z 0 1 false false 1 None false false.     (* factor 2, no boundary *)
 Definition ex_cr : @config R := mkConfig 1 1 1 16 0 1 1%Z 0 1 true true 1 None false false.      (* both boundaries reflecting *)
@@ -496,3 +566,10 @@ Example ex_same_step_premise : c_same_step (mkConfig 1 1 1 16 0 1 1%Z 0 1 false 
 Proof. reflexivity. Qed.
 Example ex_energy_gap_premises : 0 < p_m ex_p /\ Rabs (doc_force ex_p 1 0 0) <= 1.
 Proof. unfold doc_force. cbn. split; [lra | ]. replace (0 - 1 * (1 - 0)) with (- (1)) by ring. rewrite Rabs_Ropp, Rabs_R1. lra. Qed.
+Example ex_refused_premises :
+  i_running (ex_i 0 2) = true /\ i_step (ex_i 0 2) = 0%Z /\ 1 / 4 < cv_dist2 Rops ex_c (i_x (ex_i 0 2)) 0 / (c_width ex_c * c_width ex_c).
+Proof. split; [reflexivity | split; [reflexivity | ]]. rewrite dist2_free by reflexivity. cbn. lra. Qed.
+Example ex_bypass_premises : exists e, In e bypass_table.
+Proof. pose proof bypass_table_wf as H. destruct bypass_table as [| e t]; [discriminate H | exists e; left; reflexivity]. Qed.
+Example ex_route_premises : i_fb (mkInput 0%Z 0 0 1 0 true) = fst (route_bias Rops true 1) /\ i_fba (mkInput 0%Z 0 0 1 0 true) = snd (route_bias Rops true 1).
+Proof. split; reflexivity. Qed.
